@@ -492,6 +492,9 @@ impl World {
         { let mut c = self.coord.write().await; let _ = c.evaluate_scaling(); }
     }
 
+    /// (cpu, max) a worker is registered with, and the ids of the Unhealthy workers
+    async fn capacity_of(&self, w: &str) -> Option<(usize, usize)> { self.coord.read().await.workers.get(&WorkerId(w.to_string())).map(|n| (n.capacity.cpu_cores, n.capacity.max_pipelines)) }
+    async fn unhealthy_ids(&self) -> Vec<String> { let c = self.coord.read().await; let mut v: Vec<String> = c.workers.iter().filter(|(_, n)| n.status == WorkerStatus::Unhealthy).map(|(k, _)| k.0.clone()).collect(); v.sort(); v }
     async fn connector_names(&self) -> Vec<String> { let c = self.coord.read().await; let mut v: Vec<String> = c.connectors.keys().cloned().collect(); v.sort(); v }
     async fn worker_ids(&self) -> Vec<String> { let c = self.coord.read().await; let mut v: Vec<String> = c.workers.keys().map(|k| k.0.clone()).collect(); v.sort(); v }
     async fn groups(&mut self) -> Vec<String> {
@@ -602,7 +605,11 @@ async fn scenario(ctx: &mut Ctx, base: &str, script: &Script, idx: u64) {
             29 | 30 => { // (re-)registration: also arms `pending_rebalance` when groups exist
                 let max = *ctx.rng.pick(&[2usize, 4, 100]);
                 w.set_time(w.now + ctx.rng.below(50));
-                w.register(ctx, &anyw, 2, 0, max).await;
+                // a reconnecting worker re-sends the registration it is known by (same id, address, key, capacity)
+                match w.capacity_of(&anyw).await {
+                    Some((cpu, mx)) if ctx.rng.chance(1, 2) => { ctx.count("reg.identical_reregistration"); w.register(ctx, &anyw, cpu, 0, mx).await; }
+                    _ => w.register(ctx, &anyw, 2, 0, max).await,
+                }
             }
             31 | 32 => { w.set_time(w.now + ctx.rng.below(200)); w.sync_only(ctx).await; }
             _ => { // a tick of the health loop, now or after silence long enough for a time-out
@@ -615,6 +622,12 @@ async fn scenario(ctx: &mut Ctx, base: &str, script: &Script, idx: u64) {
                 let o: Vec<bool> = (0..8).map(|_| !ctx.rng.chance(1, 6)).collect();
                 let with_sync = !ctx.rng.chance(1, 3);
                 w.tick_opt(ctx, &o, with_sync).await;
+                // a worker that was marked Unhealthy comes back: it registers again with the data it is known by
+                let sick = w.unhealthy_ids().await;
+                if !sick.is_empty() && ctx.rng.chance(1, 2) {
+                    let x = ctx.rng.pick(&sick).clone();
+                    if let Some((cpu, mx)) = w.capacity_of(&x).await { ctx.count("reg.unhealthy_worker_reregisters"); w.set_time(w.now + 5); w.register(ctx, &x, cpu, 0, mx).await; }
+                }
             }
         }
     }
